@@ -109,24 +109,24 @@ Qed.
 Section LoopRule.
   Variables (F : oracle) (c : cfg) (st : store).
   Variable P : hdr -> cp -> cp -> att -> list call -> Prop.   (* invariant of the loop *)
-  Variable Q : hdr -> Prop.                                   (* what is known when the loop exits *)
+  Variable Q : Z -> Prop.                                     (* what is known of the final checkpoint height when the loop exits *)
 
   Hypothesis Hstep : forall lph m d a acc hs fl a' cs lo,
-    P lph m d a acc -> find c st lph = Ok hs -> hs <> [] ->
+    P lph m d a acc -> find c st (lp m) lph = Ok hs -> hs <> [] ->
     batch F (cut_of c st) hs a None = (fl, a', cs, lo) ->
     let m' := mkCp (fst (last hs lph)) (union (failed m) fl) in
     P (last hs lph) m' m' a' (acc ++ cs).
-  Hypothesis Hexit_err : forall lph m d a acc, P lph m d a acc -> find c st lph = Err -> Q lph.
-  Hypothesis Hexit_nil : forall lph m d a acc, P lph m d a acc -> find c st lph = Ok [] -> Q lph.
+  Hypothesis Hexit_err : forall lph m d a acc, P lph m d a acc -> find c st (lp m) lph = Err -> Q (lp m).
+  Hypothesis Hexit_nil : forall lph m d a acc, P lph m d a acc -> find c st (lp m) lph = Ok [] -> Q (lp m).
   Hypothesis Hexit_short : forall lph m d a acc hs,
-    P lph m d a acc -> find c st lph = Ok hs -> hs <> [] -> Z.of_nat (length hs) < maxh c -> Q (last hs lph).
+    P lph m d a acc -> find c st (lp m) lph = Ok hs -> hs <> [] -> Z.of_nat (length hs) < maxh c -> Q (fst (last hs lph)).
 
   Lemma loop_rule : forall fuel lph m d a acc m1 d1 a1 acc1,
     P lph m d a acc -> loop true F c fuel st lph m d a acc = Ok (m1, d1, a1, acc1) ->
-    exists lph1, P lph1 m1 d1 a1 acc1 /\ Q lph1.
+    exists lph1, P lph1 m1 d1 a1 acc1 /\ Q (lp m1).
   Proof.
     induction fuel as [|f IH]; intros lph m d a acc m1 d1 a1 acc1 HP; [discriminate|].
-    simpl. destruct (find c st lph) as [hs| |] eqn:Fd; try discriminate.
+    simpl. destruct (find c st (lp m) lph) as [hs| |] eqn:Fd; try discriminate.
     - destruct hs as [|x r] eqn:Ehs.
       + intros H; inversion H; subst. exists lph. split; [assumption|eapply Hexit_nil; eauto].
       + rewrite <- Ehs in *. assert (Hne : hs <> []) by (subst; discriminate).
@@ -141,29 +141,29 @@ Section LoopRule.
 End LoopRule.
 
 (** * termination *)
-Lemma find_last_gt c st lph hs hd :
-  in_store st lph -> head_of st = Some hd -> find c st lph = Ok hs ->
+Lemma find_last_gt c st ck lph hs hd :
+  in_store st lph -> head_of st = Some hd -> find c st ck lph = Ok hs ->
   2 <= Z.of_nat (length hs) -> in_store st (last hs lph) /\ fst lph < fst (last hs lph).
 Proof.
-  intros Hl Hh Hf Hlen. destruct (find_shape _ _ _ _ _ Hl Hh Hf) as [C _].
+  intros Hl Hh Hf Hlen. destruct (find_shape _ _ _ _ _ _ Hl Hh Hf) as [C _].
   assert (Hne : hs <> []) by (intros ->; simpl in Hlen; lia).
   split.
   - destruct C as [_ Fa]. rewrite Forall_forall in Fa. apply Fa.
     rewrite (app_removelast_last lph Hne) at 2. apply in_or_app. right. now left.
-  - rewrite (consec_last _ _ _ lph C Hne). unfold first_h. destruct (fst lph =? 1) eqn:E; [apply Z.eqb_eq in E|]; lia.
+  - rewrite (consec_last _ _ _ lph C Hne). pose proof (first_h_range ck lph). lia.
 Qed.
 
-Lemma find_last_ge c st lph hs hd :
-  in_store st lph -> head_of st = Some hd -> find c st lph = Ok hs ->
+Lemma find_last_ge c st ck lph hs hd :
+  in_store st lph -> head_of st = Some hd -> find c st ck lph = Ok hs ->
   in_store st (last hs lph) /\ fst lph <= fst (last hs lph).
 Proof.
-  intros Hl Hh Hf. destruct (find_shape _ _ _ _ _ Hl Hh Hf) as [C _].
+  intros Hl Hh Hf. destruct (find_shape _ _ _ _ _ _ Hl Hh Hf) as [C _].
   destruct hs as [|x r]; [simpl; split; [assumption|lia]|].
   assert (Hne : x :: r <> []) by discriminate.
   split.
   - destruct C as [_ Fa]. rewrite Forall_forall in Fa. apply Fa.
     rewrite (app_removelast_last lph Hne) at 2. apply in_or_app. right. now left.
-  - rewrite (consec_last _ _ _ lph C Hne). unfold first_h. simpl length. destruct (fst lph =? 1) eqn:E; [apply Z.eqb_eq in E|]; lia.
+  - rewrite (consec_last _ _ _ lph C Hne). pose proof (first_h_range ck lph). simpl length. lia.
 Qed.
 
 Lemma loop_terminates F c st : 2 <= maxh c -> forall fuel lph m d a acc,
@@ -171,28 +171,35 @@ Lemma loop_terminates F c st : 2 <= maxh c -> forall fuel lph m d a acc,
   exists r, loop true F c fuel st lph m d a acc = Ok r.
 Proof.
   intros Hm. induction fuel as [|f IH]; intros lph m d a acc Hl Hf; [lia|].
-  simpl. pose proof (find_no_oof c st lph Hl) as Hno.
-  destruct (find c st lph) as [hs| |] eqn:Fd; [|eauto|congruence].
+  simpl. pose proof (find_no_oof c st (lp m) lph Hl) as Hno.
+  destruct (find c st (lp m) lph) as [hs| |] eqn:Fd; [|eauto|congruence].
   destruct hs as [|x r] eqn:Ehs; [eauto|]. rewrite <- Ehs in *.
   destruct (batch F (cut_of c st) hs a None) as [[[fl a'] cs] lo].
   destruct (Z.of_nat (length hs) <? maxh c) eqn:L; [eauto|]. apply Z.ltb_ge in L.
   destruct (head_of_nonempty _ _ Hl) as [hd Hh].
-  destruct (find_last_gt _ _ _ _ _ Hl Hh Fd ltac:(lia)) as [Hin Hgt].
+  destruct (find_last_gt _ _ _ _ _ _ Hl Hh Fd ltac:(lia)) as [Hin Hgt].
   apply IH; [assumption|]. pose proof (get_range_h _ _ _ Hin). lia.
 Qed.
 
 Lemma last_pruned_spec st m lph m1 :
   last_pruned st m = Some (lph, m1) ->
-  in_store st lph /\ lp m1 = fst lph /\ lp m <= lp m1 /\ incl (failed m1) (failed m) /\
-  (s_tail st < lp m -> m1 = m) /\ (lp m <= s_tail st -> lp m1 = s_tail st).
+  in_store st lph /\ fst lph - 1 <= lp m1 <= fst lph /\ lp m <= lp m1 /\ incl (failed m1) (failed m) /\
+  (s_tail st < lp m -> m1 = m /\ lp m = fst lph) /\
+  (lp m <= s_tail st -> fst lph = s_tail st /\ lp m1 = (if lp m <? s_tail st then s_tail st - 1 else s_tail st) /\
+                        failed m1 = filter (fun h => s_tail st <=? h) (failed m)).
 Proof.
   unfold last_pruned. destruct (tail_of st) as [tl|] eqn:T; [|discriminate].
   destruct (tail_of_some _ _ T) as [TI TF].
   destruct (fst tl <? lp m) eqn:E; [apply Z.ltb_lt in E|apply Z.ltb_ge in E].
   - destruct (get st (lp m)) as [x|] eqn:G; [|discriminate]. intros H; inversion H; subst.
-    repeat split; try lia; [eapply get_in_store; eauto|symmetry; eapply get_fst; eauto|apply incl_refl].
-  - intros H; inversion H; subst. simpl. repeat split; try lia; [assumption|].
-    intros h Hh. apply filter_In in Hh. tauto.
+    pose proof (get_fst _ _ _ G) as GF.
+    split; [eapply get_in_store; eauto|]. split; [lia|]. split; [lia|]. split; [apply incl_refl|].
+    split; [auto|intros; lia].
+  - intros H; inversion H; subst. simpl.
+    split; [assumption|]. rewrite TF in *.
+    destruct (lp m <? s_tail st) eqn:E2; [apply Z.ltb_lt in E2|apply Z.ltb_ge in E2];
+    (split; [lia|]); (split; [lia|]);
+    (split; [intros h Hh; apply filter_In in Hh; tauto|]); (split; [intros; lia|]); intros _; repeat split; auto; lia.
 Qed.
 
 Theorem cycle_total F c w : 2 <= maxh c -> exists w' cs, cycle F c w = Ok (w', cs).
@@ -228,11 +235,11 @@ Proof.
 Qed.
 
 Lemma old_loop_spins c st lph hs :
-  find c st lph = Ok hs -> hs <> [] -> Z.of_nat (length hs) = maxh c ->
+  find c st (fst lph) lph = Ok hs -> hs <> [] -> Z.of_nat (length hs) = maxh c ->
   forall fuel m d a acc, lp m = fst lph -> loop false (fun _ _ => true) c fuel st lph m d a acc = OutOfFuel.
 Proof.
   intros Hf Hne Hl. induction fuel as [|f IH]; intros m d a acc Hm; [reflexivity|].
-  simpl. rewrite Hf. destruct hs as [|x r] eqn:E; [congruence|]. rewrite <- E in *.
+  simpl. rewrite Hm, Hf. destruct hs as [|x r] eqn:E; [congruence|]. rewrite <- E in *.
   destruct (batch (fun _ _ => true) (cut_of c st) hs a None) as [[[fl a'] cs] lo] eqn:B.
   destruct (batch_all_fail _ _ _ _ _ _ _ _ B) as [-> ->].
   replace (Z.of_nat (length hs) <? maxh c) with false by (symmetry; apply Z.ltb_ge; lia).
@@ -383,7 +390,7 @@ Proof.
   assert (Hcut : cut_of c st = snd hd - window c) by (unfold cut_of; now rewrite Hh).
   assert (S1' : safe_failed c st (failed m1)) by (eapply safe_incl; eauto).
   set (P := fun (lph : hdr) (m d : cp) (a : att) (acc : list call) =>
-    in_store st lph /\ lp m = fst lph /\ lp d <= lp m /\ lp (w_mem w) <= lp m /\ lp (w_disk w) <= lp d /\
+    in_store st lph /\ lp m <= fst lph /\ lp d <= lp m /\ lp (w_mem w) <= lp m /\ lp (w_disk w) <= lp d /\
     safe_failed c st (failed m) /\ safe_failed c st (failed d) /\
     Forall (good c st) acc /\ Forall (fun k => c_org k <> OHook) acc /\ exists rest, acc = cs1 ++ rest).
   edestruct (loop_rule F c st P (fun _ => True)) as (lph1 & HP & _).
@@ -392,8 +399,8 @@ Proof.
   - (* one iteration keeps P *)
     clear E. intros lph0 m0 d0 a0 acc hs fl a' cs2 lo (P1 & P2 & P3 & P4 & P5 & P6 & P7 & P8 & P9 & rest & P10) Fd Hne B.
     destruct (batch_spec _ _ _ _ _ _ _ _ _ B) as (B1 & B2 & B3 & B4 & _).
-    destruct (find_shape _ _ _ _ _ P1 Hh Fd) as [Csh Cle].
-    destruct (find_last_ge _ _ _ _ _ P1 Hh Fd) as [Lin Lge].
+    destruct (find_shape _ _ _ _ _ _ P1 Hh Fd) as [Csh Cle].
+    destruct (find_last_ge _ _ _ _ _ _ P1 Hh Fd) as [Lin Lge].
     assert (Sn : safe_failed c st (union (failed m0) fl)).
     { intros h Hu. apply union_in in Hu. destruct Hu as [Hu|Hu]; [now apply P6|].
       apply B3, in_map_iff in Hu. destruct Hu as (x & <- & Hx).
@@ -530,12 +537,12 @@ Proof.
     intros H; inversion H; subst w1 cs2. clear H. simpl.
     destruct (head_of_nonempty _ _ Hin) as [hd Hh].
     set (P := fun (lph : hdr) (m d : cp) (a : att) (acc : list call) =>
-      in_store st lph /\ lp m = fst lph /\ lp d <= lp m /\ lp (w_mem w0) <= lp m /\ lp (w_disk w0) <= lp d).
+      in_store st lph /\ lp m <= fst lph /\ lp d <= lp m /\ lp (w_mem w0) <= lp m /\ lp (w_disk w0) <= lp d).
     edestruct (loop_rule F c st P (fun _ => True)) as (lph1 & HP & _).
     6: exact E.
     2,3,4: intros; exact I.
     - intros lph0 m0 d0 a0 acc hs fl a' cs3 lo (P1 & P2 & P3 & P4 & P5) Fd Hne B.
-      destruct (find_last_ge _ _ _ _ _ P1 Hh Fd) as [Lin Lge].
+      destruct (find_last_ge _ _ _ _ _ _ P1 Hh Fd) as [Lin Lge].
       cbv zeta. unfold P. simpl. splits; auto; lia.
     - unfold P. simpl. splits; auto; lia.
     - destruct HP as (P1 & P2 & P3 & P4 & P5). auto. }
@@ -630,7 +637,7 @@ Lemma loop_indep_disk adv F c st : forall fuel lph m d a acc m1 d1 a1 acc1,
   forall d', exists d1', loop adv F c fuel st lph m d' a acc = Ok (m1, d1', a1, acc1).
 Proof.
   induction fuel as [|f IH]; intros lph m d a acc m1 d1 a1 acc1; [discriminate|].
-  simpl. destruct (find c st lph) as [hs| |]; try discriminate.
+  simpl. destruct (find c st (lp m) lph) as [hs| |]; try discriminate.
   - destruct hs as [|x r] eqn:E; [intros H d'; inversion H; subst; eauto|]. rewrite <- E in *.
     destruct (batch F (cut_of c st) hs a None) as [[[fl a'] cs] lo].
     destruct (Z.of_nat (length hs) <? maxh c).
@@ -670,22 +677,29 @@ Definition exhausted (c : cfg) (st : store) (m : cp) : Prop :=
 Lemma cov_mono base m tr tr' : cov base m tr -> cov base m (tr ++ tr').
 Proof. intros C h Hh. destruct (C h Hh); [left; now apply done_app_l|now right]. Qed.
 
+Lemma first_h_ck ck lp : fst lp - 1 <= ck <= fst lp -> first_h ck lp <= ck + 1.
+Proof.
+  intros H. unfold first_h, prepend. destruct (fst lp =? 1); simpl; [lia|].
+  destruct (ck <? fst lp) eqn:E; [apply Z.ltb_lt in E|apply Z.ltb_ge in E]; lia.
+Qed.
+
 Lemma cycle_complete F c w w' cs tr base :
-  0 < window c -> 0 < btime c -> 1 <= maxh c -> sorted_st (w_st w) ->
-  s_tail (w_st w) = base -> in_range (w_st w) (lp (w_mem w)) -> in_range (w_st w) (lp (w_disk w)) ->
+  0 < window c -> 0 < btime c -> 1 <= maxh c -> sorted_st (w_st w) -> s_times (w_st w) <> [] ->
+  s_tail (w_st w) - 1 <= base -> lp (w_mem w) <= s_headH (w_st w) -> lp (w_disk w) <= s_headH (w_st w) ->
   cov base (w_mem w) tr -> cov base (w_disk w) tr ->
   cycle F c w = Ok (w', cs) ->
-  in_range (w_st w) (lp (w_mem w')) /\ in_range (w_st w) (lp (w_disk w')) /\
+  s_tail (w_st w) - 1 <= lp (w_mem w') <= s_headH (w_st w) /\ lp (w_disk w') <= s_headH (w_st w) /\
+  lp (w_mem w) <= lp (w_mem w') /\
   cov base (w_mem w') (tr ++ cs) /\ cov base (w_disk w') (tr ++ cs) /\ exhausted c (w_st w) (w_mem w').
 Proof.
-  intros Hw Hb Hm Hs Hbase Rm Rd Cm Cd. unfold cycle, cycle_gen. set (st := w_st w) in *.
-  destruct (get_inside st _ Rm) as [xm Gm].
+  intros Hw Hb Hm Hs Hne0 Hbase Rm Rd Cm Cd. unfold cycle, cycle_gen. set (st := w_st w) in *.
   assert (Hne : exists tl, tail_of st = Some tl).
-  { unfold tail_of. destruct (s_times st) eqn:E; [|apply get_inside; unfold in_range, s_headH, s_len in *; rewrite E in *; simpl length in *; lia].
-    unfold in_range, s_headH, s_len in Rm. rewrite E in Rm. simpl in Rm. lia. }
+  { unfold tail_of. destruct (s_times st) eqn:E; [congruence|].
+    apply get_inside. unfold s_headH, s_len. rewrite E. simpl length. lia. }
   destruct Hne as [tl Ht]. destruct (tail_of_some _ _ Ht) as [TI TF].
   destruct (last_pruned st (w_mem w)) as [[lph m1]|] eqn:LP.
-  2:{ unfold last_pruned in LP. rewrite Ht, Gm in LP. destruct (fst tl <? lp (w_mem w)); discriminate. }
+  2:{ unfold last_pruned in LP. rewrite Ht in LP. destruct (fst tl <? lp (w_mem w)) eqn:E; [|discriminate].
+      apply Z.ltb_lt in E. destruct (get_inside st (lp (w_mem w))) as [xm Gm]; [lia|]. rewrite Gm in LP. discriminate. }
   destruct (last_pruned_spec _ _ _ _ LP) as (Hin & Hlp & Hge & Hincl & Hsame & Hjump).
   destruct (retry F st (cut_of c st) (failed m1) (w_att w)) as [[fs a1] cs1] eqn:R.
   destruct (retry_spec _ _ _ _ _ _ _ _ R) as (R1 & R2 & R3 & R4).
@@ -693,48 +707,56 @@ Proof.
   intros H; inversion H; subst w' cs0. clear H. simpl.
   destruct (head_of_nonempty _ _ Hin) as [hd Hh].
   assert (Hcut : cut_of c st = snd hd - window c) by (unfold cut_of; now rewrite Hh).
+  pose proof (get_range_h _ _ _ Hin) as Rlph.
   (* the checkpoint the loop starts from is covered *)
   assert (C1 : cov base (mkCp (lp m1) fs) (tr ++ cs1)).
   { intros h Hh'. simpl in Hh'.
     destruct (Z_lt_ge_dec (s_tail st) (lp (w_mem w))) as [Lt|Ge].
-    - rewrite (Hsame Lt) in *. destruct (Cm h Hh') as [D|I]; [left; now apply done_app_l|].
+    - destruct (Hsame Lt) as [Em _]. rewrite Em in *. destruct (Cm h Hh') as [D|I]; [left; now apply done_app_l|].
       destruct (R3 _ I) as [K|D]; [now right|left; now apply done_app_r].
-    - rewrite (Hjump ltac:(lia)) in Hh'. lia. }
+    - destruct (Hjump ltac:(lia)) as (J1 & J2 & J3).
+      destruct (lp (w_mem w) <? s_tail st) eqn:E2; [apply Z.ltb_lt in E2; lia|apply Z.ltb_ge in E2].
+      assert (h = s_tail st) by lia. subst h.
+      destruct (Cm (s_tail st) ltac:(lia)) as [D|I]; [left; now apply done_app_l|].
+      assert (I' : In (s_tail st) (failed m1)).
+      { rewrite J3. apply filter_In. split; [assumption|apply Z.leb_le; lia]. }
+      destruct (R3 _ I') as [K|D]; [now right|left; now apply done_app_r]. }
   set (P := fun (lph : hdr) (m d : cp) (a : att) (acc : list call) =>
-    in_store st lph /\ lp m = fst lph /\ in_range st (lp d) /\ cov base m (tr ++ acc) /\ cov base d (tr ++ acc) /\
-    exists rest, acc = cs1 ++ rest).
-  set (Q := fun lph : hdr => forall x, in_store st x -> fst lph < fst x -> cut_of c st <= snd x + btime c).
+    in_store st lph /\ fst lph - 1 <= lp m <= fst lph /\ lp d <= s_headH st /\ lp (w_mem w) <= lp m /\
+    cov base m (tr ++ acc) /\ cov base d (tr ++ acc) /\ exists rest, acc = cs1 ++ rest).
+  set (Q := fun ck : Z => forall x, in_store st x -> ck < fst x -> cut_of c st <= snd x + btime c).
   edestruct (loop_rule F c st P Q) as (lph1 & HP & HQ).
   6: exact E.
   - (* step *)
-    clear E. intros lph0 m0 d0 a0 acc hs fl a' cs2 lo (P1 & P2 & P3 & P4 & P5 & rest & P6) Fd Hne B.
+    clear E. intros lph0 m0 d0 a0 acc hs fl a' cs2 lo (P1 & P2 & P3 & P3' & P4 & P5 & rest & P6) Fd Hne B.
     destruct (batch_spec _ _ _ _ _ _ _ _ _ B) as (B1 & B2 & B3 & B4 & _).
-    destruct (find_shape _ _ _ _ _ P1 Hh Fd) as [Csh Cle].
-    destruct (find_last_ge _ _ _ _ _ P1 Hh Fd) as [Lin Lge].
+    destruct (find_shape _ _ _ _ _ _ P1 Hh Fd) as [Csh Cle].
+    destruct (find_last_ge _ _ _ _ _ _ P1 Hh Fd) as [Lin Lge].
+    pose proof (first_h_ck (lp m0) lph0 P2) as FH.
     assert (Cn : cov base (mkCp (fst (last hs lph0)) (union (failed m0) fl)) (tr ++ acc ++ cs2)).
-    { intros h Hh'. simpl in Hh'. destruct (Z_le_gt_dec h (fst lph0)) as [Le|Gt].
+    { intros h Hh'. simpl in Hh'. destruct (Z_le_gt_dec h (lp m0)) as [Le|Gt].
       - destruct (P4 h ltac:(lia)) as [D|I]; [left; rewrite app_assoc; now apply done_app_l|right; apply union_in; now left].
       - rewrite (consec_last _ _ _ lph0 Csh Hne) in Hh'.
-        destruct (consec_covers _ _ _ h Csh) as (x & Hx & Hfx).
-        { unfold first_h in *. destruct (fst lph0 =? 1) eqn:E1; [apply Z.eqb_eq in E1|]; lia. }
+        destruct (consec_covers _ _ _ h Csh) as (x & Hx & Hfx); [lia|].
         destruct (B4 _ Hx) as [I|D]; rewrite Hfx in *.
         + right. apply union_in. now right.
         + left. apply done_app_r. now apply done_app_r. }
-    cbv zeta. unfold P. splits; auto.
-    + unfold in_range. simpl. apply (get_range_h _ _ _ Lin).
+    cbv zeta. unfold P. simpl. splits; auto; try lia.
+    + apply (get_range_h _ _ _ Lin).
     + exists (rest ++ cs2). rewrite P6. now rewrite app_assoc.
   - intros lph0 m0 d0 a0 acc (P1 & _) Fd. exfalso. revert Fd. now apply find_no_err.
-  - intros lph0 m0 d0 a0 acc (P1 & _) Fd. unfold Q. intros x Hx Hgt.
-    rewrite Hcut. apply (find_complete c st lph0 hd [] Hs Hb Hm P1 Hh Fd); auto. simpl. lia.
+  - intros lph0 m0 d0 a0 acc (P1 & P2 & _) Fd. unfold Q. intros x Hx Hgt.
+    rewrite Hcut. apply (find_complete c st (lp m0) lph0 hd [] Hs Hw Hb Hm P1 Hh Fd); auto; [simpl; lia|].
+    unfold upto. pose proof (first_h_ck (lp m0) lph0 P2). lia.
   - intros lph0 m0 d0 a0 acc hs (P1 & _) Fd Hne Hlen. unfold Q. intros x Hx Hgt.
-    rewrite Hcut. apply (find_complete c st lph0 hd hs Hs Hb Hm P1 Hh Fd); auto.
+    rewrite Hcut. apply (find_complete c st (lp m0) lph0 hd hs Hs Hw Hb Hm P1 Hh Fd); auto.
+    unfold upto. destruct hs; [congruence|assumption].
   - (* initially *)
-    unfold P. simpl. splits; auto.
+    unfold P. simpl. splits; auto; try lia.
     + intros h Hh'. destruct (Cd h Hh'); [left; now apply done_app_l|now right].
     + exists []. now rewrite app_nil_r.
-  - destruct HP as (P1 & P2 & P3 & P4 & P5 & rest & P6). splits; auto.
-    + unfold in_range. rewrite P2. apply (get_range_h _ _ _ P1).
-    + unfold exhausted. intros x Hx Hgt. apply HQ; auto. now rewrite <- P2.
+  - destruct HP as (P1 & P2 & P3 & P3' & P4 & P5 & rest & P6). pose proof (get_range_h _ _ _ P1) as R1'.
+    splits; auto; try lia.
 Qed.
 
 (** the events of a history without header deletion and without the explicit reset *)
@@ -745,28 +767,46 @@ Definition ev_sorted (st : store) (e : event) : Prop := sorted_st (st_step st e)
 Definition J (c : cfg) (base : Z) (wt : world * list call) : Prop :=
   let w := fst wt in
   s_tail (w_st w) = base /\ in_range (w_st w) (lp (w_mem w)) /\ in_range (w_st w) (lp (w_disk w)) /\
+  lp (w_disk w) <= lp (w_mem w) /\
   cov base (w_mem w) (snd wt) /\ cov base (w_disk w) (snd wt).
 
 Lemma in_range_append st ts h : in_range st h -> in_range (mkStore (s_tail st) (s_times st ++ ts)) h.
 Proof. unfold in_range, s_headH, s_len. simpl. rewrite app_length. lia. Qed.
+
+Lemma in_range_nonempty st h : in_range st h -> s_times st <> [].
+Proof. unfold in_range, s_headH, s_len. intros H E. rewrite E in H. simpl in H. lia. Qed.
+
+Lemma cycle_J F c base w w' cs tr :
+  0 < window c -> 0 < btime c -> 1 <= maxh c -> sorted_st (w_st w) ->
+  J c base (w, tr) -> cycle F c w = Ok (w', cs) ->
+  J c base (w', tr ++ cs) /\ exhausted c (w_st w') (w_mem w').
+Proof.
+  intros Hw Hb Hm Hs (J1 & J2 & J3 & JL & J4 & J5) He. simpl in *.
+  pose proof (cycle_store _ _ _ _ _ He) as Hst.
+  pose proof (in_range_nonempty _ _ J2) as Hne.
+  destruct (cycle_complete F c w w' cs tr base Hw Hb Hm Hs Hne ltac:(lia) ltac:(unfold in_range in *; lia)
+              ltac:(unfold in_range in *; lia) J4 J5 He) as (A & B & A' & C & D & E).
+  destruct (exec_mono F c w ECycle w' cs JL He) as (M1 & M2 & M3).
+  specialize (M2 ltac:(discriminate)).
+  unfold J. simpl. rewrite Hst. unfold in_range in *. splits; auto; lia.
+Qed.
 
 Lemma exec_J F c base w tr e w' cs :
   0 < window c -> 0 < btime c -> 1 <= maxh c -> sorted_st (w_st w) -> plain e ->
   J c base (w, tr) -> exec F c w e = Ok (w', cs) ->
   J c base (w', tr ++ cs) /\ (e <> EAppend (match e with EAppend ts => ts | _ => [] end) -> exhausted c (w_st w') (w_mem w')).
 Proof.
-  intros Hw Hb Hm Hs Hp (J1 & J2 & J3 & J4 & J5) He. simpl in *.
+  intros Hw Hb Hm Hs Hp HJ He.
   destruct e; simpl in Hp; try contradiction; simpl in He.
-  - pose proof (cycle_store _ _ _ _ _ He) as Hst.
-    destruct (cycle_complete F c w w' cs tr base Hw Hb Hm Hs J1 J2 J3 J4 J5 He) as (A & B & C & D & E).
-    unfold J. simpl. rewrite Hst. splits; auto.
-  - inversion He; subst. unfold J. simpl. rewrite app_nil_r. splits; auto using in_range_append. congruence.
-  - pose proof (cycle_store _ _ _ _ _ He) as Hst. simpl in Hst.
-    destruct (cycle_complete F c (mkW (w_st w) (w_mem w) (w_mem w) (w_att w)) w' cs tr base Hw Hb Hm Hs J1 J2 J2 J4 J4 He) as (A & B & C & D & E).
-    unfold J. simpl in *. rewrite Hst. splits; auto.
-  - pose proof (cycle_store _ _ _ _ _ He) as Hst. simpl in Hst.
-    destruct (cycle_complete F c (mkW (w_st w) (w_disk w) (w_disk w) (w_att w)) w' cs tr base Hw Hb Hm Hs J1 J3 J3 J5 J5 He) as (A & B & C & D & E).
-    unfold J. simpl in *. rewrite Hst. splits; auto.
+  - destruct (cycle_J F c base w w' cs tr Hw Hb Hm Hs HJ He). auto.
+  - destruct HJ as (J1 & J2 & J3 & JL & J4 & J5). simpl in *.
+    inversion He; subst. unfold J. simpl. rewrite app_nil_r. splits; auto using in_range_append. congruence.
+  - destruct HJ as (J1 & J2 & J3 & JL & J4 & J5). simpl in *.
+    assert (HJ' : J c base (mkW (w_st w) (w_mem w) (w_mem w) (w_att w), tr)) by (unfold J; simpl; splits; auto; lia).
+    destruct (cycle_J F c base (mkW (w_st w) (w_mem w) (w_mem w) (w_att w)) w' cs tr Hw Hb Hm Hs HJ' He). auto.
+  - destruct HJ as (J1 & J2 & J3 & JL & J4 & J5). simpl in *.
+    assert (HJ' : J c base (mkW (w_st w) (w_disk w) (w_disk w) (w_att w), tr)) by (unfold J; simpl; splits; auto; lia).
+    destruct (cycle_J F c base (mkW (w_st w) (w_disk w) (w_disk w) (w_att w)) w' cs tr Hw Hb Hm Hs HJ' He). auto.
 Qed.
 
 Theorem eventually_all_gen F c base : 2 <= maxh c -> 0 < window c -> 0 < btime c -> forall es w tr,
@@ -799,8 +839,8 @@ Proof.
   intros Hm Hw Hb Hne Hs Hh Hp He wt x Hx Hgt Hold.
   assert (HJ : J c (s_tail st) (init st, [])).
   { unfold J, init, cov, in_range, s_headH, s_len. simpl. destruct (s_times st); [congruence|]. simpl length. splits; intros; lia. }
-  destruct (eventually_all_gen F c (s_tail st) Hm Hw Hb (es ++ [e]) (init st) [] Hs Hh Hp HJ) as [(J1 & J2 & J3 & J4 & J5) Hex].
-  specialize (Hex es e eq_refl). fold wt in Hex, J1, J2, J3, J4, J5. cbv zeta in Hex.
+  destruct (eventually_all_gen F c (s_tail st) Hm Hw Hb (es ++ [e]) (init st) [] Hs Hh Hp HJ) as [(J1 & J2 & J3 & JL & J4 & J5) Hex].
+  specialize (Hex es e eq_refl). fold wt in Hex, J1, J2, J3, JL, J4, J5. cbv zeta in Hex.
   assert (Hne' : e <> EAppend match e with EAppend ts => ts | _ => [] end) by (destruct He as [->|[->| ->]]; discriminate).
   specialize (Hex Hne' x Hx).
   destruct (Z_lt_ge_dec (lp (w_mem (fst wt))) (fst x)) as [Lt|Ge]; [specialize (Hex Lt); lia|].
@@ -900,4 +940,16 @@ Example ex_hook :
   map (fun k => (c_org k, c_h k)) (snd wt) =
     [(OHook, 4); (OBatch, 4); (OBatch, 5); (OBatch, 6); (OBatch, 7); (OBatch, 8); (OBatch, 9); (OBatch, 10); (OBatch, 11)] /\
   w_mem (fst wt) = mkCp 5 [] /\ s_tail (w_st (fst wt)) = 5.
+Proof. vm_compute. auto. Qed.
+
+(** the header store's tail overtakes the checkpoint (its deletions prune 6 through the hook, then the headers 5 and 6 go):
+    the next cycle starts at the new tail 7 and hands it to Prune as well (before fix-c14-2 the checkpoint jumped to 7 and
+    the block at height 7 was never pruned, neither by a cycle nor by the hook) *)
+Example ex_tail_rebase :
+  let st := mkStore 5 [0; 1; 2; 3; 4; 5; 6; 7; 8; 9; 100] in
+  let wt := run (step (fun _ _ => false) (mkCfg 50 1 4)) (init st, [])
+                [EDelete 5 false; EDelete 6 false; EDrop; EDrop; ECycle; EDelete 7 false; EDrop] in
+  map (fun k => (c_org k, c_h k)) (snd wt) =
+    [(OHook, 6); (OBatch, 7); (OBatch, 8); (OBatch, 9); (OBatch, 10); (OBatch, 11); (OBatch, 12); (OBatch, 13); (OBatch, 14)] /\
+  w_mem (fst wt) = mkCp 14 [].
 Proof. vm_compute. auto. Qed.
